@@ -6,6 +6,7 @@ import PM.Step
 import PM.Transform
 import PM.StructEdit
 import PM.TypePlan
+import Proofs.StructEdit
 import Proofs.StepToks
 import Proofs.StepMap
 import Proofs.StepMapLeft
@@ -1172,6 +1173,38 @@ theorem wrapStepR_aroundOK (S : Schema) (f t : RPos) (depth : Nat) (wrappers : L
         refine ⟨by simp [Slice.wf], ?_, ⟨Nat.le_refl _, by omega, Nat.le_refl _⟩, .inl hlt⟩
         simp only [Slice.size]
         omega
+
+/-- `lift`: the step built for a non-empty node range of a resolved pair of positions meets
+    `AroundOK` (the two halves of its slice are the nests of closed and re-opened ancestors) -/
+theorem liftStepR_aroundOK (doc : Node) (a b depth target : Nat) (f t : RPos) (st : Step)
+    (hf : doc.resolve a = some f) (ht : doc.resolve b = some t) (hdoc : doc.isLeaf = false)
+    (hdf : depth ≤ f.depth) (hdt : depth ≤ t.depth)
+    (hb : liftStepR f t depth target = .ok st)
+    (hse : ∀ s e, f.before (depth + 1) = some s → t.after (depth + 1) = some e → s < e) :
+    AroundOK st := by
+  unfold liftStepR at hb
+  cases hgs : f.before (depth + 1) with
+  | none => simp [hgs] at hb
+  | some gs =>
+  cases hge : t.after (depth + 1) with
+  | none => simp [hgs, hge] at hb
+  | some ge =>
+  simp only [hgs, hge] at hb
+  have hlt := hse gs ge hgs hge
+  have nL := liftSide_nest f.node (fun d => decide (0 < f.index d)) target (depth - target) [] 0 0 false
+    (fun d h1 h2 => path_node_elem hf hdoc d (by omega)) .nil
+  have nR := liftSide_nest t.node (fun d => decide (t.afterT (d + 1) < t.end_ d)) target (depth - target)
+    [] 0 0 false (fun d h1 h2 => path_node_elem ht hdoc d (by omega)) .nil
+  generalize liftSide f.node (fun d => decide (0 < f.index d)) target (depth - target) [] 0 0 false = L at hb nL
+  generalize liftSide t.node (fun d => decide (t.afterT (d + 1) < t.end_ d)) target (depth - target)
+    [] 0 0 false = R at hb nR
+  obtain ⟨before, oS, mL⟩ := L
+  obtain ⟨after, oE, mR⟩ := R
+  simp only [Except.ok.injEq] at hb nL nR
+  subst hb
+  refine ⟨nests_wf nL nR, ?_, ⟨Nat.sub_le _ _, by omega, Nat.le_add_right _ _⟩, .inl hlt⟩
+  rw [nests_size nL nR, nL.fsize]
+  omega
 
 /-! ### the size delta for every step kind and along a history -/
 
